@@ -55,6 +55,10 @@ def cases(tier, seed):
             yield "permutations", dict(stage=stage, regroup=regroup)
             if tier != "quick":
                 yield "permutations", dict(stage=stage, regroup=regroup, five=True)
+        # regrouping off, the blend labelled as ONE island by the input catalogue (rows of an island need not be adjacent)
+        yield "permutations", dict(stage=stage, regroup=False, labelled=True)
+        if tier != "quick":
+            yield "permutations", dict(stage=stage, regroup=False, labelled=True, five=True)
     for stage in (1, 2, 3):
         yield "badrows", dict(stage=stage)
         for regroup in (True, False):
@@ -219,13 +223,18 @@ def ev_permutations(case, ctx):
     if case.get("five"):
         srcs = srcs + [skygauss.source_at_pixel(hdr, 30.5, 80.2, -0.8, 7.0, 3.4, 80.0)]
     cat = [to_component(s, hdr, k) for k, s in enumerate(srcs)]
+    grouped = case["regroup"] or case.get("labelled")
+    if case.get("labelled"):
+        cat[2].island, cat[2].source, cat[3].island, cat[3].source = 2, 0, 2, 1
+        for c in cat[4:]:
+            c.island -= 1
     truth = {c.uuid: s for c, s in zip(cat, srcs)}
     f = os.path.join(d, "c05p.fits")
     scenes.write_image(f, hdr, skygauss.render(hdr, SHAPE, srcs))
     base = None
     for perm in itertools.permutations(range(len(cat))):
         ctx.count("permutation")
-        sig = "perm:%s,stage=%d,regroup=%s" % ("".join(map(str, perm)), case["stage"], case["regroup"])
+        sig = "perm:%s,stage=%d,regroup=%s%s" % ("".join(map(str, perm)), case["stage"], case["regroup"], ",labelled" if case.get("labelled") else "")
         ctx.outcome("perm_n=%d" % len(cat))
         ctx.nontrivial(sig)
         try:
@@ -235,10 +244,10 @@ def ev_permutations(case, ctx):
             continue
         if base is None:
             base = out
-            if case["regroup"]:
+            if grouped:
                 check_against_truth(out, cat, truth, hdr, case["stage"], ctx, sig, sig)
             continue
-        if case["regroup"]:
+        if grouped:
             df = same_results(base, out)
             if df:
                 ctx.violation("results depend on the row order: %s (%s)" % ("; ".join(df[:3]), sig), "order|" + sig)
